@@ -43,7 +43,7 @@ def token_groups(chk):
         longs.append("0x" + bytes(b).hex())
     groups.append(("hexlong", longs))
     groups.append(("ambiguous", ["10", "0010", "1234", "123456", "00", "01", "007", "0x10", "99", "0099", "1e10", "dead", "DEAD", "add", "ADD", "abc", "abcd", "0xabc", "0x0", "0xx", "x51", "0x",
-                                 "hello", "a", "OP_BOGUS", "OP_", "-0", "--1", "+1", "1.5", "0x1g", "ff", "FF", "fF"]))
+                                 "0b01", "0b1101", "0b", "0b12", "0B01", "0b0", "0b10", "0b" + "01" * 31, "0o17", "0d10", "1e3", "0b1", "b01", "hello", "a", "OP_BOGUS", "OP_", "-0", "--1", "+1", "1.5", "0x1g", "ff", "FF", "fF"]))
     subs = ["[]", "[OP_1]", "[OP_1 OP_2 OP_ADD]", "[0x00]", "[0x]", "[1 2]", "[ OP_DUP ]", "[OP_DUP  OP_DROP]", "[OP_DUP\tOP_DROP]", "[OP_DUP\nOP_DROP]", "[OP_DUP # comment\nOP_DROP]",
             "[# only a comment\n]", "[OP_1\r\nOP_2\r\nOP_ADD]", "[OP_DUP\rOP_DROP]", "[0x0102\r\n]", "[OP_1 \r\n OP_2]", "[OP_1 # c\r\nOP_2\r\n]", "[7\r\n-5\r\nhello\r\n]", "[[OP_1\r\n]\r\n]", "[[OP_1]]", "[[OP_1] [OP_2] OP_ADD]", "[0x0102030405 [7 8] hello]", "[" + " ".join(["OP_NOP"] * 80) + "]", "[" + " ".join(["0x" + "11" * 40] * 8) + "]"]
     nest = "OP_1"
